@@ -14,6 +14,8 @@ import (
 	"time"
 )
 
+var slowLog = os.Getenv("VERIF_SLOWLOG") != ""
+
 type SatResult int
 
 const (
@@ -38,6 +40,7 @@ type Solver struct {
 	Time    time.Duration
 	MaxTime time.Duration
 	Slow    int
+	recent  []string
 	logw    io.Writer
 	timeout int
 }
@@ -97,6 +100,12 @@ func (s *Solver) Close() {
 }
 
 func (s *Solver) send(line string) {
+	if slowLog {
+		s.recent = append(s.recent, line)
+		if len(s.recent) > 60 {
+			s.recent = s.recent[len(s.recent)-40:]
+		}
+	}
 	if s.logw != nil {
 		fmt.Fprintln(s.logw, line)
 	}
@@ -150,6 +159,9 @@ func (s *Solver) CheckSat() SatResult {
 	}
 	if dt > time.Second {
 		s.Slow++
+		if slowLog && dt > 3*time.Second {
+			fmt.Fprintf(os.Stderr, "SLOW QUERY %.1fs (%s):\n  %s\n", dt.Seconds(), ans, strings.Join(s.recent, "\n  "))
+		}
 	}
 	if err != nil {
 		// solver died: restart, report unknown
